@@ -199,7 +199,7 @@ func (g *goTranslator) leanTypeAtom(t types.Type) string {
 
 func zeroOf(leanT string) string {
 	switch leanT {
-	case "Int", "Err", "Any":
+	case "Int", "Err", "Any", "Lib.RVal", "Lib.Ty":
 		return "0"
 	case "Bool", "Once":
 		return "false"
@@ -231,6 +231,7 @@ type mctx struct {
 	loopElem string
 	calls    map[string]bool // methods of the receiver this method calls
 	retOpt   bool            // inside the body of a range loop: `return x` is `some x`, falling through is `none`
+	envValue bool            // the value being stored is itself an environment object (a parameter of interface type)
 }
 
 func (m *mctx) fresh() string { m.tmp++; return fmt.Sprintf("t%d", m.tmp) }
@@ -361,7 +362,7 @@ func (m *mctx) argInt(a ast.Expr) string {
 	t := m.g.leanType(m.g.info.Types[a].Type)
 	s := m.expr(a)
 	switch t {
-	case "Int", "Any":
+	case "Int", "Any", "Lib.Ty", "Lib.RVal":
 		return "Arg.int " + atomOf(s)
 	case "Bytes":
 		return "Arg.bytes " + atomOf(s)
@@ -494,6 +495,26 @@ func (m *mctx) expr(e ast.Expr) string {
 		}
 		bad("unary operator %s", x.Op)
 	case *ast.BinaryExpr:
+		if x.Op == token.EQL || x.Op == token.NEQ {
+			// w.f == nil / w.f != nil for a field of interface type: is there an object at all
+			var fe ast.Expr
+			if id, ok := x.Y.(*ast.Ident); ok && id.Name == "nil" {
+				fe = x.X
+			} else if id, ok := x.X.(*ast.Ident); ok && id.Name == "nil" {
+				fe = x.Y
+			}
+			if fe != nil {
+				if se, ok := fe.(*ast.SelectorExpr); ok && m.isRecv(se.X) {
+					if f, isEnv := m.envField(fe); isEnv {
+						t := leanIdent(m.recv) + "." + leanIdent(f) + ".isNil"
+						if x.Op == token.NEQ {
+							return "(!" + t + ")"
+						}
+						return t
+					}
+				}
+			}
+		}
 		a := m.expr(x.X)
 		if x.Op == token.LAND || x.Op == token.LOR {
 			m.noHoist++
@@ -953,6 +974,10 @@ func (m *mctx) stmts(list []ast.Stmt, tail func() string, ind string) string {
 		case *ast.ReturnStmt:
 			vals := make([]string, len(x.Results))
 			for j, r := range x.Results {
+				if m.isRecv(r) {
+					vals[j] = "()" // `return w` (fluent interface): the caller already holds the receiver
+					continue
+				}
 				vals[j] = m.expr(r)
 			}
 			m.flush(&b, ind)
@@ -1041,6 +1066,10 @@ func (m *mctx) stmts(list []ast.Stmt, tail func() string, ind string) string {
 			// `for k, v := range E { … return … }` with a body that changes nothing: a search that may return early
 			if m.retOpt {
 				bad("nested range loops")
+			}
+			if txt, ok := m.rangeAssignBreak(x, ind); ok {
+				b.WriteString(txt)
+				continue
 			}
 			if vars, recv := m.assigned(x.Body.List); len(vars) > 0 || recv {
 				bad("a range loop whose body changes state")
@@ -1142,11 +1171,22 @@ func (m *mctx) store(lhs ast.Expr, val string, ind string) string {
 		return fmt.Sprintf("%slet %s := %s;\n", ind, leanIdent(l.Name), val)
 	case *ast.SelectorExpr:
 		if m.isRecv(l.X) {
-			if _, isEnv := m.envField(l); isEnv {
+			if _, isEnv := m.envField(l); isEnv && !m.envValue {
 				bad("assignment to the environment field %s", l.Sel.Name)
 			}
 			w := leanIdent(m.recv)
 			return fmt.Sprintf("%slet %s := { %s with %s := %s };\n", ind, w, w, leanIdent(l.Sel.Name), val)
+		}
+	}
+	if ix, ok := lhs.(*ast.IndexExpr); ok {
+		if fs, ok := ix.X.(*ast.SelectorExpr); ok && m.isRecv(fs.X) {
+			if tv, ok := m.g.info.Types[ix.X]; ok {
+				if _, isMap := tv.Type.Underlying().(*types.Map); isMap {
+					w := leanIdent(m.recv)
+					f := leanIdent(fs.Sel.Name)
+					return fmt.Sprintf("%slet %s := { %s with %s := GoSem.mapSet %s.%s %s %s };\n", ind, w, w, f, w, f, m.atom(ix.Index), atomOf(val))
+				}
+			}
 		}
 	}
 	if l, ok := lhs.(*ast.SelectorExpr); ok {
@@ -1236,6 +1276,16 @@ func (m *mctx) assign(x *ast.AssignStmt, ind string) string {
 	if len(x.Lhs) != len(x.Rhs) {
 		bad("assignment with %d targets and %d values", len(x.Lhs), len(x.Rhs))
 	}
+	if len(x.Rhs) == 1 {
+		if id, ok := x.Rhs[0].(*ast.Ident); ok {
+			if tv, ok := m.g.info.Types[id]; ok && m.g.leanType(tv.Type) == "Env" {
+				if _, isAlias := m.aliases[id.Name]; !isAlias {
+					m.envValue = true
+					defer func() { m.envValue = false }()
+				}
+			}
+		}
+	}
 	vals := make([]string, len(x.Rhs))
 	for i, r := range x.Rhs {
 		vals[i] = m.expr(r)
@@ -1254,6 +1304,62 @@ func (m *mctx) assign(x *ast.AssignStmt, ind string) string {
 		b.WriteString(m.store(l, vals[i], ind))
 	}
 	return b.String()
+}
+
+// rangeAssignBreak recognises the search idiom
+//
+//	for k, v := range E { if COND { x = EXPR; break } }
+//
+// (nothing else in the body, COND and EXPR without effects): `x` becomes EXPR for the first entry, in iteration order,
+// that satisfies COND, and keeps its value when there is none.
+func (m *mctx) rangeAssignBreak(x *ast.RangeStmt, ind string) (string, bool) {
+	if x.Tok != token.DEFINE || len(x.Body.List) != 1 {
+		return "", false
+	}
+	ifs, ok := x.Body.List[0].(*ast.IfStmt)
+	if !ok || ifs.Init != nil || ifs.Else != nil || len(ifs.Body.List) != 2 {
+		return "", false
+	}
+	as, ok := ifs.Body.List[0].(*ast.AssignStmt)
+	br, ok2 := ifs.Body.List[1].(*ast.BranchStmt)
+	if !ok || !ok2 || br.Tok != token.BREAK || br.Label != nil || as.Tok != token.ASSIGN || len(as.Lhs) != 1 || len(as.Rhs) != 1 {
+		return "", false
+	}
+	target, ok := as.Lhs[0].(*ast.Ident)
+	if !ok {
+		return "", false
+	}
+	name := func(e ast.Expr) string {
+		if e == nil {
+			return "_"
+		}
+		if id, ok := e.(*ast.Ident); ok {
+			return leanIdent(id.Name)
+		}
+		bad("range into a non-identifier")
+		return ""
+	}
+	var b strings.Builder
+	e := m.atom(x.X)
+	m.flush(&b, ind)
+	src := e
+	switch m.g.info.Types[x.X].Type.Underlying().(type) {
+	case *types.Map:
+	case *types.Slice:
+		src = "(GoSem.enum " + e + ")"
+	default:
+		return "", false
+	}
+	n0 := len(m.pre)
+	cond := m.expr(ifs.Cond)
+	val := m.expr(as.Rhs[0])
+	if len(m.pre) != n0 {
+		bad("a call with effects inside a range loop")
+	}
+	t := leanIdent(target.Name)
+	b.WriteString(fmt.Sprintf("%slet %s := (match GoSem.forRangeRet %s (fun (%s, %s) => if %s then some %s else none) with\n%s  | some r_ => r_\n%s  | none => %s);\n",
+		ind, t, src, name(x.Key), name(x.Value), cond, val, ind, ind, t))
+	return b.String(), true
 }
 
 // onceDo recognises w.f.Do(func() { … }) with f a sync.Once field
@@ -1616,6 +1722,9 @@ func (g *goTranslator) method(fd *ast.FuncDecl) (mo *methodOut, err error) {
 	if fd.Type.Results != nil {
 		for _, f := range fd.Type.Results.List {
 			t := g.leanType(g.info.Types[f.Type].Type)
+			if t == "Env" && len(fd.Type.Results.List) == 1 && len(f.Names) == 0 && returnsOnlyReceiver(fd, m.recv) {
+				t = "Unit" // a fluent method (`return w` as an interface the receiver implements)
+			}
 			if len(f.Names) == 0 {
 				resT = append(resT, t)
 				continue
@@ -1715,6 +1824,26 @@ func (g *goTranslator) ctor(fd *ast.FuncDecl) (txt string, err error) {
 	pos := g.pkg.Fset.Position(fd.Pos())
 	return fmt.Sprintf("/-- `func %s` (%s:%d) -/\ndef %s %s : %s :=\n  { %s }\n", fd.Name.Name, relBase(pos.Filename), pos.Line,
 		leanIdent(fd.Name.Name), strings.Join(params, " "), g.cfg.recvType, strings.Join(fs, ", ")), nil
+}
+
+// returnsOnlyReceiver: every return statement of the method returns the receiver variable
+func returnsOnlyReceiver(fd *ast.FuncDecl, recv string) bool {
+	ok, any := true, false
+	ast.Inspect(fd.Body, func(n ast.Node) bool {
+		if _, isLit := n.(*ast.FuncLit); isLit {
+			return false
+		}
+		if r, isRet := n.(*ast.ReturnStmt); isRet {
+			any = true
+			if len(r.Results) != 1 {
+				ok = false
+			} else if id, isId := r.Results[0].(*ast.Ident); !isId || id.Name != recv {
+				ok = false
+			}
+		}
+		return true
+	})
+	return ok && any
 }
 
 func relBase(p string) string {
